@@ -617,4 +617,39 @@ theorem sidesOf_reparseObj {χ} (r : χ → χ) (o : Obj χ) : sidesOf (reparseO
   | none => rfl
   | some v => cases v <;> rfl
 
+theorem childList_reparseObj {χ} (r : χ → χ) (o : Obj χ) (k : String) :
+    childList (reparseObj r o) k = (childList o k).map r := by
+  unfold childList reparseObj
+  rw [lookup_map_snd]
+  cases o.lookup k with
+  | none => rfl
+  | some v => cases v <;> rfl
+
+theorem getInt_reparseObj {χ} (r : χ → χ) (o : Obj χ) (k : String) : getInt (reparseObj r o) k = getInt o k := by
+  unfold getInt reparseObj
+  rw [lookup_map_snd]
+  cases o.lookup k with
+  | none => rfl
+  | some v => cases v <;> rfl
+
+theorem nEnvOf_reparse (r : L0 → L0) (n : L1) : nEnvOf (reparseObj r n) = nEnvOf n := by
+  unfold nEnvOf reparseObj
+  rw [lookup_map_snd]
+  cases n.lookup "environments" with
+  | none => rfl
+  | some v => cases v <;> rfl
+
+theorem cellEnvsOf_reparse (sp : L1) : cellEnvsOf (reparseObj (reparseObj (fun e => e)) sp) = cellEnvsOf sp := by
+  have hnodes := childList_reparseObj (reparseObj (fun e : Empty => e)) sp "nodes"
+  have hmap : ((childList sp "nodes").map (reparseObj (fun e : Empty => e))).map (fun n => getInt n "environment") =
+      (childList sp "nodes").map (fun n => getInt n "environment") := by
+    rw [List.map_map]; apply List.map_congr_left; intro n _; exact getInt_reparseObj _ n _
+  unfold cellEnvsOf
+  rw [hnodes, hmap]
+  unfold reparseObj
+  rw [lookup_map_snd]
+  cases sp.lookup "cell_env" with
+  | none => rfl
+  | some v => cases v <;> rfl
+
 end Strengths.Dict
